@@ -1,7 +1,17 @@
+// Package c06: signal flags steer control flow and the reserved ones are
+// tamper-proof.
 package c06
 
 import (
+	"context"
+
+	"git.defalsify.org/vise.git/cache"
+	"git.defalsify.org/vise.git/engine"
+	"git.defalsify.org/vise.git/render"
+	"git.defalsify.org/vise.git/resource"
 	"git.defalsify.org/vise.git/state"
+	"git.defalsify.org/vise.git/vm"
+	"vharness/app"
 	"vharness/vrt"
 )
 
@@ -19,6 +29,237 @@ func Writeable(v *vrt.Ctx) {
 	}
 }
 
+// flagCount: the configured number of client flags. FCmode 0: {0, 9, 16};
+// FCmode 1: every count 0..16.
+func flagCount(v *vrt.Ctx) uint32 {
+	if v.Param("FCmode") == 0 {
+		return []uint32{0, 9, 16}[v.Choice("flagcount", 3)]
+	}
+	return uint32(v.Choice("flagcount", 17))
+}
+
+func bit(flags []byte, i uint32) bool { return flags[i/8]&(1<<(i%8)) != 0 }
+
+// newState: a state with FlagCount client flags and symbolic flag bytes.
+// TERMINATE is clear (the blocked case is the Terminate harness).
+func newState(v *vrt.Ctx, flagCount uint32) *state.State {
+	st := state.NewState(flagCount)
+	fb := v.Bytes("flags", len(st.Flags))
+	copy(st.Flags, fb)
+	v.Assume(st.Flags[0]&(1<<state.FLAG_TERMINATE) == 0)
+	st.Down("root")
+	return st
+}
+
+// Refresh: an external function asks to set flag x and reset flag y (any
+// indices inside the configured size, reserved ones included). Compared with
+// the same run with empty lists: the built-in flags 0..5 are identical, and
+// writeable flags (6 and up) are set/reset as asked.
+func Refresh(v *vrt.Ctx) {
+	fc := flagCount(v)
+	x, y := v.U32("set"), v.U32("reset")
+	v.Assume(x < fc+8)
+	v.Assume(y < fc+8)
+	run := func(st *state.State, set, reset []uint32) {
+		rs := app.NewRes()
+		rs.Funcs["f"] = func(ctx context.Context, sym string, input []byte) (resource.Result, error) {
+			return resource.Result{Content: "", FlagSet: set, FlagReset: reset}, nil
+		}
+		ca := cache.NewCache()
+		ca.Push()
+		vmi := vm.NewVm(st, rs, ca, render.NewSizer(0))
+		_, err := vmi.Run(context.Background(), app.Code().Load("f", 0).Halt().Bytes())
+		v.Assert(err == nil, "C06/refresh-run-ok")
+	}
+	a := newState(v, fc)
+	b := state.NewState(fc)
+	copy(b.Flags, a.Flags)
+	b.Down("root")
+	run(a, []uint32{x}, []uint32{y})
+	run(b, nil, nil)
+	// expected flag bytes: those of the run without requests, with the reset
+	// then the set applied to writeable flags only (selection without forks)
+	for j := range a.Flags {
+		inX := v.And(x/8 == uint32(j), x >= 6)
+		inY := v.And(y/8 == uint32(j), y >= 6)
+		sm := v.IteU8(inX, uint8(1)<<(x%8), 0)
+		rm := v.IteU8(inY, uint8(1)<<(y%8), 0)
+		want := (b.Flags[j] &^ rm) | sm
+		got := a.Flags[j]
+		if j == 0 {
+			// LANG (bit 7) is a signal the VM consumes at the next
+			// instruction; TERMINATE (bit 6) stops the run before the HALT,
+			// so WAIT legitimately differs when it was requested
+			want, got = want&0x7f, got&0x7f
+			if x == state.FLAG_TERMINATE {
+				v.Assert(got&0x40 != 0, "C06/requested-flag-is-set")
+				v.Cover("C06/set-terminate")
+				continue
+			}
+		}
+		v.Assert(got == want, "C06/flags-are-exactly-the-writeable-requests")
+	}
+	if x >= 6 {
+		v.Cover("C06/set-writeable")
+	} else {
+		v.Cover("C06/set-reserved-ignored")
+	}
+}
+
+// loopUntouched: flags the VM loop itself does not write before executing an
+// instruction (READIN, LOADFAIL, RESERVED and the client flags).
+func loopUntouched(sig uint32) bool {
+	return sig == state.FLAG_READIN || sig == state.FLAG_LOADFAIL || sig == state.FLAG_RESERVED || sig >= state.FLAG_USERSTART
+}
+
+// Catch: CATCH moves exactly when the flag's state equals the mode, otherwise
+// nothing changes.
+func Catch(v *vrt.Ctx) {
+	fc := flagCount(v)
+	st := newState(v, fc)
+	sig := v.U32("sig")
+	v.Assume(sig < fc+8)
+	v.Assume(loopUntouched(sig))
+	mode := v.Bool("mode")
+	was := bit(st.Flags, sig)
+	rs := app.NewRes()
+	rs.Node("other", "other", app.Code().Halt().Bytes())
+	ca := cache.NewCache()
+	ca.Push()
+	vmi := vm.NewVm(st, rs, ca, render.NewSizer(0))
+	rest, err := vmi.Run(context.Background(), app.Code().Catch("other", sig, mode).Halt().Bytes())
+	v.Assert(err == nil, "C06/catch-run-ok")
+	if was == mode {
+		v.Assert(len(st.ExecPath) == 2 && st.ExecPath[1] == "other", "C06/catch-moves-when-flag-matches")
+		v.Cover("C06/catch-fired")
+	} else {
+		v.Assert(len(st.ExecPath) == 1 && st.ExecPath[0] == "root", "C06/catch-does-nothing-when-flag-differs")
+		v.Assert(int(ca.Levels()) == 2, "C06/catch-does-nothing-when-flag-differs")
+		v.Assert(len(rest) == 0, "C06/catch-does-nothing-when-flag-differs")
+		v.Assert(len(rs.Log) == 0, "C06/catch-does-nothing-when-flag-differs")
+		v.Cover("C06/catch-idle")
+	}
+	v.Assert(bit(st.Flags, sig) == was, "C06/catch-does-not-write-the-flag")
+}
+
+// Croak: under the same test CROAK abandons the pending bytecode: the session
+// terminates, or - while input is being handled - goes to the catch node.
+func Croak(v *vrt.Ctx) {
+	fc := flagCount(v)
+	st := newState(v, fc)
+	sig := v.U32("sig")
+	v.Assume(sig < fc+8)
+	v.Assume(sig >= state.FLAG_USERSTART)
+	mode := v.Bool("mode")
+	was := bit(st.Flags, sig)
+	reading := bit(st.Flags, state.FLAG_READIN)
+	if reading {
+		st.SetInput([]byte("1"))
+	}
+	rs := app.NewRes()
+	rs.Node("other", "other", app.Code().Halt().Bytes())
+	rs.Node("_catch", "catch", app.Code().Halt().Bytes())
+	ca := cache.NewCache()
+	ca.Push()
+	vmi := vm.NewVm(st, rs, ca, render.NewSizer(0))
+	rest, err := vmi.Run(context.Background(), app.Code().Croak(sig, mode).Move("other").Bytes())
+	v.Assert(err == nil, "C06/croak-run-ok")
+	top := st.ExecPath[len(st.ExecPath)-1]
+	if was != mode {
+		v.Assert(top == "other", "C06/croak-does-nothing-when-flag-differs")
+		v.Cover("C06/croak-idle")
+		return
+	}
+	v.Assert(top != "other", "C06/croak-abandons-pending-code")
+	if reading {
+		v.Assert(top == "_catch", "C06/croak-during-input-goes-to-catch")
+		v.Cover("C06/croak-to-catch")
+	} else {
+		v.Assert(bit(st.Flags, state.FLAG_TERMINATE), "C06/croak-terminates")
+		v.Assert(len(rest) == 0, "C06/croak-terminates")
+		v.Cover("C06/croak-terminates")
+	}
+}
+
+// Terminate: while TERMINATE is set no instruction runs, no external function
+// is called and no position changes, whatever code is pending and whatever
+// the input is. One step from an arbitrary blocked state, so it holds for
+// every later request until client code clears the flag.
+func Terminate(v *vrt.Ctx) {
+	fc := flagCount(v)
+	st := state.NewState(fc)
+	copy(st.Flags, v.Bytes("flags", len(st.Flags)))
+	v.Assume(st.Flags[0]&(1<<state.FLAG_TERMINATE) != 0)
+	depth := 1 + v.Choice("depth", 2)
+	ca := cache.NewCache()
+	for _, n := range []string{"root", "sub"}[:depth] {
+		st.Down(n)
+		ca.Push()
+	}
+	st.SizeIdx = v.U16("idx")
+	before := append([]byte{}, st.Flags...)
+	rs := app.NewRes()
+	rs.Funcs["f"] = app.Static("x")
+	rs.Node("other", "other", app.Code().Halt().Bytes())
+	rs.Node("_catch", "catch", app.Code().Halt().Bytes())
+	var code []byte
+	switch v.Choice("pending", 6) {
+	case 0:
+		code = app.Code().Load("f", 0).Halt().Bytes()
+	case 1:
+		code = app.Code().Move("other").Bytes()
+	case 2:
+		code = app.Code().InCmp("other", "*").Bytes()
+	case 3:
+		code = app.Code().Catch("other", 8, false).Bytes()
+	case 4:
+		code = app.Code().Reload("f").Bytes()
+	case 5:
+		code = v.Bytes("junk", 3)
+	}
+	in := v.Bytes("input", v.Choice("inputlen", 3))
+	st.SetInput(in)
+	idx := st.SizeIdx
+	engineLevel := v.Choice("through-engine", 2) == 1
+	if engineLevel {
+		st.SetCode(code)
+		en := engine.NewEngine(engine.Config{Root: "root", FlagCount: fc}, rs).WithState(st).WithMemory(ca)
+		cont, err := en.Exec(context.Background(), in)
+		if len(in) > 0 {
+			if _, verr := vm.ValidInput(in); verr != nil {
+				v.Assert(err != nil, "C06/terminated-refused-input-is-an-error")
+				v.Cover("C06/terminated-refused")
+			} else {
+				v.Assert(err == nil && !cont, "C06/terminated-engine-reports-stop")
+			}
+		} else {
+			v.Assert(err == nil && !cont, "C06/terminated-engine-reports-stop")
+		}
+		w := &app.Sink{}
+		en.Flush(context.Background(), w)
+		v.Assert(w.S == "", "C06/terminated-no-output")
+		v.Cover("C06/terminated-engine")
+	} else {
+		vmi := vm.NewVm(st, rs, ca, render.NewSizer(0))
+		rest, err := vmi.Run(context.Background(), code)
+		v.Assert(err == nil && len(rest) == 0, "C06/terminated-run-returns-at-once")
+		v.Cover("C06/terminated-vm")
+	}
+	v.Assert(rs.FuncCalls() == 0, "C06/terminated-no-external-call")
+	v.Assert(len(st.ExecPath) == depth && st.SizeIdx == idx, "C06/terminated-no-position-change")
+	v.Assert(int(ca.Levels()) == depth+1, "C06/terminated-cache-unchanged")
+	v.Assert(bit(st.Flags, state.FLAG_TERMINATE), "C06/terminated-stays-set")
+	for i := range before {
+		if i > 0 {
+			v.Assert(st.Flags[i] == before[i], "C06/terminated-client-flags-unchanged")
+		}
+	}
+}
+
 var Harnesses = map[string]func(*vrt.Ctx){
 	"Writeable": Writeable,
+	"Refresh":   Refresh,
+	"Catch":     Catch,
+	"Croak":     Croak,
+	"Terminate": Terminate,
 }
